@@ -78,7 +78,15 @@ def model_histories(ctx, rnd, n_sample, depth_cfg="MC_HostExport"):
             first.append(h)
         else:
             rest.append(h)
-    return first + rest[:n_sample], len(hists)
+    # adversarial content the model does not distinguish: a disk one of whose files holds a cassette recording as its data
+    import copy
+    extra = []
+    for h in first:
+        if h["init"]["kind"] == "dsk" and not h.get("full"):
+            g = copy.deepcopy(h)
+            g["init"]["files"] = [101, 150]
+            extra.append(g)
+    return first + extra + rest[:n_sample], len(hists)
 
 
 def run(ctx):
